@@ -333,7 +333,12 @@ def _check_evidence(ev):
 
 
 def write_evidence(prop, ev):
-    _check_evidence(ev)
+    try:
+        _check_evidence(ev)
+    except (AssertionError, KeyError) as e:
+        # e.g. a run in which every case failed before it was counted as non-trivial: the verdict stands, the
+        # evidence file is written as measured (it will not validate as evidence of a passing run)
+        print('note: evidence does not satisfy the schema minimums (%r)' % (e,))
     d = os.path.join(OUT, 'evidence')
     os.makedirs(d, exist_ok=True)
     path = os.path.join(d, prop + '.json')
